@@ -870,7 +870,7 @@ pub fn any_color() -> (Option<RGBA>, Option<[u8; 3]>) {
 /// the requested colours and attributes (so it must start with a reset) and nothing else
 /// @bounds every opaque fg/bg (or none) x every underline style x every flag combination
 /// @encodes encoder::TTYEncoder::encode[Face], encoder::color_sgr_encode[TrueColor], encoder::Chunks
-/// @tier thorough @timeout 3000
+/// @tier experimental @timeout 3000
 #[cfg_attr(kani, kani::proof)]
 #[cfg_attr(kani, kani::unwind(22))]
 pub fn c05_face_truecolor() {
@@ -982,7 +982,7 @@ pub fn dirty_state() -> SgrState {
 /// what the record says
 /// @bounds every modification record: reset x fg/bg/underline colour (any opaque or unchanged) x underline (unchanged or any of 6 styles) x bold/italic/blink/strike (unchanged/off/on)
 /// @encodes encoder::TTYEncoder::encode[FaceModify], encoder::color_sgr_encode[TrueColor], encoder::Chunks
-/// @tier thorough @timeout 3000
+/// @tier experimental @timeout 3000
 #[cfg_attr(kani, kani::proof)]
 #[cfg_attr(kani, kani::unwind(22))]
 pub fn c05_face_modify_truecolor() {
